@@ -602,27 +602,59 @@ fn mat_point(c: &MatCase, obs: &mut Obs) -> PropResult {
     }
 }
 
-// explicit source white (the documented white-balance use): any XYZ as "white" maps onto the
-// destination white point
+// explicit ("dynamic") white points: any XYZ brighter than black may stand for white on either side; both are
+// normalised to Y = 1, so only their chromaticity matters
 #[derive(Debug, Clone, Serialize, Deserialize)]
 struct ExplicitCase {
     src: [f64; 3],
+    /// explicit destination white (used when `use_dst`), else the static white point of the destination type
+    dst_w: [f64; 3],
+    use_dst: bool,
+    colour: [f64; 3],
     m: u8,
     dst: u8,
     f32_: bool,
+}
+struct ExplicitOut {
+    /// image of the source white
+    white_img: [f64; 3],
+    /// static white of the destination type
+    w: [f64; 3],
+    /// colour adapted there and back with the two explicit whites swapped
+    back: [f64; 3],
+    /// matrix for (src, src): must be the identity
+    same: [f64; 9],
+    /// matrix with the destination white's luminance scaled by 2.5: must be the same matrix
+    scaled_diff: f64,
 }
 macro_rules! explicit_t {
     ($T:ty, $M:ty, $D:ty, $c:expr) => {{
         let c: &ExplicitCase = $c;
         let src = Xyz::<wpt::D65, $T>::new(c.src[0] as $T, c.src[1] as $T, c.src[2] as $T);
-        let m = adaptation_matrix::<$T, wpt::D65, $D, $M>(Some(src), None);
+        let dstw = Xyz::<$D, $T>::new(c.dst_w[0] as $T, c.dst_w[1] as $T, c.dst_w[2] as $T);
+        let dst = if c.use_dst { Some(dstw) } else { None };
+        let m = adaptation_matrix::<$T, wpt::D65, $D, $M>(Some(src), dst);
         let out: Xyz<$D, $T> = m.convert(src);
         let w = <$D as WhitePoint<f64>>::get_xyz();
-        ([out.x as f64, out.y as f64, out.z as f64], [w.x, w.y, w.z], src.y as f64)
+        // there and back with the roles swapped
+        let col = Xyz::<wpt::D65, $T>::new(c.colour[0] as $T, c.colour[1] as $T, c.colour[2] as $T);
+        let there: Xyz<$D, $T> = m.convert(col);
+        let back_m = adaptation_matrix::<$T, $D, wpt::D65, $M>(Some(if c.use_dst { dstw } else { <$D as WhitePoint<$T>>::get_xyz().with_white_point() }), Some(src));
+        let back: Xyz<wpt::D65, $T> = back_m.convert(there);
+        let same = adaptation_matrix::<$T, wpt::D65, wpt::D65, $M>(Some(src), Some(src)).into_array();
+        let scaled = adaptation_matrix::<$T, wpt::D65, $D, $M>(Some(src), Some(dstw * (2.5 as $T))).into_array();
+        let unscaled = adaptation_matrix::<$T, wpt::D65, $D, $M>(Some(src), Some(dstw)).into_array();
+        let mut same64 = [0.0f64; 9];
+        let mut sd: f64 = 0.0;
+        for i in 0..9 {
+            same64[i] = same[i] as f64;
+            sd = sd.max((scaled[i] as f64 - unscaled[i] as f64).abs());
+        }
+        ExplicitOut { white_img: [out.x as f64, out.y as f64, out.z as f64], w: [w.x, w.y, w.z], back: [back.x as f64, back.y as f64, back.z as f64], same: same64, scaled_diff: sd }
     }};
 }
 fn explicit_point(c: &ExplicitCase, obs: &mut Obs) -> PropResult {
-    let (out, w, y) = match (c.f32_, c.m, c.dst) {
+    let o = match (c.f32_, c.m, c.dst) {
         (false, 0, 0) => explicit_t!(f64, Bradford, wpt::D65, c),
         (false, 1, 0) => explicit_t!(f64, VonKries, wpt::D65, c),
         (false, _, 0) => explicit_t!(f64, UnitMatrix, wpt::D65, c),
@@ -637,11 +669,22 @@ fn explicit_point(c: &ExplicitCase, obs: &mut Obs) -> PropResult {
         (true, _, _) => explicit_t!(f32, UnitMatrix, wpt::D50, c),
     };
     obs.nontrivial();
-    // the source is normalised to Y = 1 before use, so the image of src is Y_src * destination white
-    let want = [w[0] * y, w[1] * y, w[2] * y];
-    let tol = if c.f32_ { 2e-5 } else { 3e-6 };
-    obs.err("explicit source white -> destination white (relative)", d3(out, want) / y);
-    ensure!(d3(out, want) <= tol * y, "adaptation_matrix(Some({:?}), None) with {} maps its own source white to {:?}, expected {:?}", c.src, MNAMES[c.m as usize], out, want);
+    obs.class(if c.use_dst { "explicit destination white" } else { "static destination white" });
+    let y = if c.f32_ { c.src[1] as f32 as f64 } else { c.src[1] };
+    // both whites are normalised to Y = 1 before use, so the image of src is Y_src * (destination white / its Y)
+    let dw = if c.use_dst { [c.dst_w[0] / c.dst_w[1], 1.0, c.dst_w[2] / c.dst_w[1]] } else { o.w };
+    let want = [dw[0] * y, dw[1] * y, dw[2] * y];
+    let tol = if c.f32_ { 3e-5 } else { 4e-6 };
+    let cfg = format!("adaptation_matrix(Some({:?}), {}) with {} ({})", c.src, if c.use_dst { format!("Some({:?})", c.dst_w) } else { "None".into() }, MNAMES[c.m as usize], if c.f32_ { "f32" } else { "f64" });
+    obs.err("explicit whites: source white -> destination white (relative)", d3(o.white_img, want) / y);
+    ensure!(d3(o.white_img, want) <= tol * y * scale3(dw), "{} maps its own source white to {:?}, expected {:?}", cfg, o.white_img, want);
+    obs.err("explicit whites: equal white points vs identity", maxdiff(&o.same, &IDENT));
+    ensure!(maxdiff(&o.same, &IDENT) <= if c.f32_ { 2e-5 } else { 3e-6 }, "adaptation_matrix(Some(w), Some(w)) with w = {:?} and {} is not the identity: {:?}", c.src, MNAMES[c.m as usize], o.same);
+    let sc = scale3(c.colour);
+    obs.err("explicit whites: there and back (relative)", d3(o.back, c.colour) / sc);
+    ensure!(d3(o.back, c.colour) <= (if c.f32_ { 1e-4 } else { 1e-5 }) * sc, "{}: adapting {:?} there and back (whites swapped) returns {:?}", cfg, c.colour, o.back);
+    obs.err("explicit whites: matrix changes with the luminance of the destination white", o.scaled_diff);
+    ensure!(o.scaled_diff <= if c.f32_ { 2e-5 } else { 1e-12 }, "{}: scaling the destination white's luminance by 2.5 changes the matrix by {:e} (white points are documented to be normalised)", cfg, o.scaled_diff);
     Ok(())
 }
 
@@ -895,9 +938,12 @@ fn main() {
     );
     let n = h.n(200_000, 10_000_000);
     h.prop(
-        "adaptation_explicit_source_white",
+        "adaptation_explicit_white_points",
         n,
-        || ((0.3..=1.3f64, 0.05..=3.0f64, 0.2..=1.6f64), 0u8..3, 0u8..2, any::<bool>()).prop_map(|((x, y, z), m, dst, f32_)| ExplicitCase { src: [x * y, y, z * y], m, dst, f32_ }),
+        || {
+            let white = || (0.6..=1.3f64, 0.05..=3.0f64, 0.3..=1.6f64).prop_map(|(x, y, z)| [x * y, y, z * y]);
+            (white(), white(), any::<bool>(), [0.0..=1.2f64, 0.0..=1.2f64, 0.0..=1.3f64], 0u8..3, 0u8..2, any::<bool>()).prop_map(|(src, dst_w, use_dst, colour, m, dst, f32_)| ExplicitCase { src, dst_w, use_dst, colour, m, dst, f32_ })
+        },
         explicit_point,
     );
     let n = h.n(100_000, 5_000_000);
